@@ -28,6 +28,9 @@ type body struct {
 	remainingContentLength int64
 	violatedContentLength  bool
 	hasContentLength       bool
+	// noBodyExpected is set for responses that declare a Content-Length but never carry content:
+	// responses to HEAD requests and 304 responses.
+	noBodyExpected bool
 }
 
 func newBody(str *Stream, contentLength int64) *body {
@@ -67,6 +70,15 @@ func (r *body) Read(b []byte) (int, error) {
 	r.remainingContentLength -= int64(n)
 	if err := r.checkContentLengthViolation(); err != nil {
 		return n, err
+	}
+	if err == io.EOF && r.hasContentLength && r.remainingContentLength > 0 && !r.noBodyExpected {
+		// The peer ended the message before sending as many bytes as it declared in the Content-Length header.
+		// That's a malformed message, see section 4.1.2 of RFC 9114.
+		if !r.violatedContentLength {
+			r.str.CancelWrite(quic.StreamErrorCode(ErrCodeMessageError))
+			r.violatedContentLength = true
+		}
+		return n, io.ErrUnexpectedEOF
 	}
 	return n, maybeReplaceError(err)
 }
